@@ -233,6 +233,31 @@ fn blosc_decompress_bytes_partial(
     length: usize,
     typesize: usize,
 ) -> Result<Vec<u8>, BloscError> {
+    if length == 0 {
+        return Ok(vec![]);
+    }
+    if offset % typesize != 0 || length % typesize != 0 {
+        // blosc_getitem addresses whole items: decompress the covering items and slice,
+        // or everything if the range reaches into a trailing partial item
+        let nbytes = blosc_nbytes(src).unwrap_or(0);
+        let item_start = offset / typesize;
+        let item_end = (offset + length).div_ceil(typesize);
+        let (bytes, start) = if item_end * typesize <= nbytes {
+            let bytes = blosc_decompress_bytes_partial(
+                src,
+                item_start * typesize,
+                (item_end - item_start) * typesize,
+                typesize,
+            )?;
+            (bytes, offset - item_start * typesize)
+        } else {
+            (blosc_decompress_bytes(src, nbytes, 1)?, offset)
+        };
+        return bytes
+            .get(start..start + length)
+            .map(<[u8]>::to_vec)
+            .ok_or_else(|| BloscError::from("blosc partial decode out of bounds"));
+    }
     let start = i32::try_from(offset / typesize).unwrap();
     let nitems = i32::try_from(length / typesize).unwrap();
     let mut dest: Vec<u8> = Vec::with_capacity(length);
